@@ -565,7 +565,348 @@ Proof.
     + cbn [now set_slots]. lia.
     + intros i Hi Ne. unfold slot_at. cbn [slots set_slots]. rewrite nth_upd_ne by auto. rewrite S3. auto.
     + right. split; auto. exists (now s). split; [lia|]. left. split; [fold u; lia|].
-      unfold slot_at. cbn [slots set_slots]. rewrite nth_upd_eq by (rewrite S3, (i_len _ I); auto). rewrite N1. reflexivity.
+      unfold slot_at. cbn [slots set_slots]. rewrite nth_upd_eq by (rewrite S3, (i_len _ I); auto). unfold y. rewrite N1. reflexivity.
     + destruct (pa_outs _ _ P13) as (a13 & E13 & F13). exists a13. split; [cbn; auto|].
       left. split; auto. left. unfold slot_at. cbn [slots set_slots]. rewrite nth_upd_eq by (rewrite S3, (i_len _ I); auto). auto.
+Qed.
+
+Lemma frame_uptime s : frame s (fst (uptime_msec s)).
+Proof.
+  unfold uptime_msec, uptime_usec. cbn [fst]. constructor; cbn; try reflexivity; try lia. exists []; auto.
+Qed.
+Lemma cb_slot_frame c a s : frame s (cb_slot c a s).
+Proof.
+  unfold cb_slot. destruct (active _); [|apply frame_refl].
+  pose proof (frame_uptime s) as F1. destruct (uptime_msec s) as [s1 u]. cbn [fst] in F1.
+  destruct (_ <=? _).
+  - pose proof (passive_chan_set_value c (s_gpio (nth (Z.to_nat a) (slots s) slot_free))
+        (if s_target (nth (Z.to_nat a) (slots s) slot_free) =? 0 then LO else HI) (s_chan (nth (Z.to_nat a) (slots s) slot_free)) s1) as P.
+    destruct (chan_set_value _ _ _ _ s1) as [s3 ok]. cbn [fst] in P.
+    eapply frame_trans; [exact F1|]. eapply frame_trans; [apply frame_passive; exact P|].
+    eapply frame_trans; [apply frame_passive; apply passive_t2_set|].
+    constructor; cbn; try reflexivity; try lia. eexists [_]; reflexivity.
+  - eapply frame_trans; [exact F1|]. eapply frame_trans; [apply frame_passive; apply passive_t2_set|].
+    constructor; cbn; try reflexivity; try lia. exists []; reflexivity.
+Qed.
+
+(* ---------- the whole loop ---------- *)
+Definition fin_from (s0 s : st) (k : nat) (o : out) : Prop :=
+  exists i tl, (i < k)%nat /\ now s0 <= tl <= now s /\ o = finish_of (slot_at s0 i) tl (rd s0 tl) /\
+               active (slot_at s0 i) = true /\ s_chan (slot_at s i) = 255.
+Record LoopInv (s0 s : st) (k : nat) : Prop := {
+  lp_inv : Inv s; lp_tr : Tr s; lp_frame : frame s0 s; lp_delay : delay s = delay s0; lp_tcd : tcd s = tcd s0;
+  lp_now : now s <= now s0 + Z.of_nat k * OP;
+  lp_done : forall i, (i < k)%nat -> evald (now s0) (now s) s0 (slot_at s0 i) (slot_at s i);
+  lp_todo : forall i, (k <= i < 8)%nat -> slot_at s i = slot_at s0 i;
+  lp_outs : exists add, outs s = add ++ outs s0 /\ Forall (fun o => isghost o = true -> fin_from s0 s k o) add
+}.
+Lemma evald_widen lo hi lo' hi' s0 x y : lo' <= lo -> hi <= hi' -> evald lo hi s0 x y -> evald lo' hi' s0 x y.
+Proof.
+  intros A B [E|(E & tl & R & D)]; [left; auto|]. right. split; auto. exists tl. split; [lia|auto].
+Qed.
+Lemma rd_frame s0 s t : frame s0 s -> rd s t = rd s0 t.
+Proof. intros []. unfold rd. rewrite fr_cnt1, fr_tb0. reflexivity. Qed.
+
+Lemma loop_step c s0 s k :
+  (k < 8)%nat -> LoopInv s0 s k -> NW (cb_slot c (Z.of_nat k) s) -> LoopInv s0 (cb_slot c (Z.of_nat k) s) (S k).
+Proof.
+  intros Hk L N'. destruct L.
+  pose proof (cb_slot_frame c (Z.of_nat k) s) as F.
+  assert (N : NW s) by (eapply NW_frame; eauto).
+  destruct (cb_slot_step c k s Hk lp_inv0 lp_tr0 N) as (A & B & C & D & E & G & H & (add & O1 & O2)).
+  destruct (A N') as [I' T'].
+  set (s' := cb_slot c (Z.of_nat k) s) in *.
+  assert (OPpos : 0 <= OP) by (destruct consts_ok; unfold OP; lia).
+  constructor; auto.
+  - eapply frame_trans; eauto.
+  - congruence.
+  - congruence.
+  - rewrite Nat2Z.inj_succ. lia.
+  - intros i Hi. destruct (Nat.eq_dec i k) as [->|Ne].
+    + rewrite lp_todo0 in H by lia. 
+      assert (EV : evald (now s) (now s) s0 (slot_at s0 k) (slot_at s' k)).
+      { destruct H as [H|(H1 & tl & H2 & H3)]; [left; auto|]. right. split; auto. exists tl. split; auto.
+        rewrite (rd_frame s0 s) in H3 by auto. exact H3. }
+      eapply evald_widen; [| |exact EV]. apply lp_frame0. apply B.
+    + rewrite G by (auto; lia). eapply evald_widen; [| |apply lp_done0; lia]. lia. apply B.
+  - intros i Hi. rewrite G by lia. apply lp_todo0; lia.
+  - destruct lp_outs0 as (add0 & E0 & F0). exists (add ++ add0). split.
+    + rewrite O1, E0, app_assoc. reflexivity.
+    + apply Forall_app. split.
+      * destruct O2 as [[NG _]|(Ax & Cx & a1 & -> & NG)].
+        -- rewrite Forall_forall in *. intros o Ho Gh. apply NG, noghost_false in Ho. congruence.
+        -- constructor.
+           ++ intros _. exists k, (now s). split; [lia|]. split; [split; [apply lp_frame0|apply B]|].
+              rewrite lp_todo0 in * by lia. rewrite (rd_frame s0 s) by auto. auto.
+           ++ rewrite Forall_forall in *. intros o Ho Gh. apply NG, noghost_false in Ho. congruence.
+      * rewrite Forall_forall in *. intros o Ho Gh. destruct (F0 o Ho Gh) as (i & tl & P1 & P2 & P3 & P4 & P5).
+        exists i, tl. split; [lia|]. split; [destruct B; lia|]. split; auto. split; auto.
+        rewrite G by lia. auto.
+Qed.
+
+Lemma cd_loop_unfold c s :
+  cd_loop c s = cb_slot c (Z.of_nat 7) (cb_slot c (Z.of_nat 6) (cb_slot c (Z.of_nat 5) (cb_slot c (Z.of_nat 4)
+               (cb_slot c (Z.of_nat 3) (cb_slot c (Z.of_nat 2) (cb_slot c (Z.of_nat 1) (cb_slot c (Z.of_nat 0) s))))))).
+Proof. reflexivity. Qed.
+
+Lemma cd_loop_frame c s : frame s (cd_loop c s).
+Proof. rewrite cd_loop_unfold. repeat (eapply frame_trans; [|apply cb_slot_frame]). apply frame_refl. Qed.
+
+Lemma cd_loop_spec c s0 : Inv s0 -> Tr s0 -> NW (cd_loop c s0) -> LoopInv s0 (cd_loop c s0) 8.
+Proof.
+  intros I T N.
+  assert (L0 : LoopInv s0 s0 0).
+  { constructor; auto; try lia; try apply frame_refl; try (intros; lia); try (exists []; split; auto). }
+  rewrite cd_loop_unfold in *.
+  set (s1 := cb_slot c (Z.of_nat 0) s0) in *. set (s2 := cb_slot c (Z.of_nat 1) s1) in *.
+  set (s3 := cb_slot c (Z.of_nat 2) s2) in *. set (s4 := cb_slot c (Z.of_nat 3) s3) in *.
+  set (s5 := cb_slot c (Z.of_nat 4) s4) in *. set (s6 := cb_slot c (Z.of_nat 5) s5) in *.
+  set (s7 := cb_slot c (Z.of_nat 6) s6) in *. set (s8 := cb_slot c (Z.of_nat 7) s7) in *.
+  assert (N7 : NW s7) by (eapply NW_frame; [apply cb_slot_frame|exact N]).
+  assert (N6 : NW s6) by (eapply NW_frame; [apply cb_slot_frame|exact N7]).
+  assert (N5 : NW s5) by (eapply NW_frame; [apply cb_slot_frame|exact N6]).
+  assert (N4 : NW s4) by (eapply NW_frame; [apply cb_slot_frame|exact N5]).
+  assert (N3 : NW s3) by (eapply NW_frame; [apply cb_slot_frame|exact N4]).
+  assert (N2 : NW s2) by (eapply NW_frame; [apply cb_slot_frame|exact N3]).
+  assert (N1 : NW s1) by (eapply NW_frame; [apply cb_slot_frame|exact N2]).
+  pose proof (loop_step c s0 s0 0 ltac:(lia) L0 N1) as L1. fold s1 in L1.
+  pose proof (loop_step c s0 s1 1 ltac:(lia) L1 N2) as L2. fold s2 in L2.
+  pose proof (loop_step c s0 s2 2 ltac:(lia) L2 N3) as L3. fold s3 in L3.
+  pose proof (loop_step c s0 s3 3 ltac:(lia) L3 N4) as L4. fold s4 in L4.
+  pose proof (loop_step c s0 s4 4 ltac:(lia) L4 N5) as L5. fold s5 in L5.
+  pose proof (loop_step c s0 s5 5 ltac:(lia) L5 N6) as L6. fold s6 in L6.
+  pose proof (loop_step c s0 s6 6 ltac:(lia) L6 N7) as L7. fold s7 in L7.
+  exact (loop_step c s0 s7 7 ltac:(lia) L7 N).
+Qed.
+
+(* ---------- supla_esp_countdown_timer_startstop: the key invariant ---------- *)
+(* the armed period never exceeds clamp(time_left/10) of any running slot *)
+Definition T1 (s : st) : Prop :=
+  forall x, In x (slots s) -> active x = true ->
+    t_on (tcd s) = true /\ CD_MIN <= delay s <= clampd (s_left x) /\ t_per (tcd s) = delay s * 1000.
+
+Lemma Inv_timer s s' :
+  slots s' = slots s -> cnt0 s' = cnt0 s -> tb s' = tb s -> now s' = now s -> upc s' = upc s -> upl s' = upl s ->
+  TmrOK s' -> Inv s -> Inv s'.
+Proof.
+  intros E1 E4 E5 E6 E7 E8 TM []. unfold ClockOK, slot_at in *.
+  constructor; unfold ClockOK, slot_at; rewrite ?E1, ?E4, ?E5, ?E6, ?E7, ?E8; auto.
+  intros x Hx Ax. destruct (i_ok0 x Hx Ax). constructor; unfold rd in *; rewrite ?E4, ?E5, ?E6; auto.
+Qed.
+
+Lemma startstop_spec s :
+  TmrOK s ->
+  let s' := startstop s in
+  slots s' = slots s /\ cnt0 s' = cnt0 s /\ tb s' = tb s /\ now s' = now s /\ upc s' = upc s /\ upl s' = upl s /\
+  outs s' = outs s /\ chfl s' = chfl s /\ time2 s' = time2 s /\ li s' = li s /\
+  TmrOK s' /\ T1 s' /\
+  ((tcd s' = tcd s /\ delay s' = delay s) \/ t_due (tcd s') = now s + t_per (tcd s') \/ t_on (tcd s') = false).
+Proof.
+  intros (D0 & Dz & Dp). cbv zeta. unfold startstop.
+  pose proof (min_delay_spec (slots s) 0 (or_introl eq_refl)) as M. cbv zeta in M.
+  set (d := min_delay (slots s) 0) in *. destruct M as (M1 & _ & M3 & M4).
+  pose proof consts_ok as [].
+  assert (K : forall x, In x (slots s) -> active x = true -> d <> 0 /\ d <= clampd (s_left x) /\ CD_MIN <= d).
+  { intros x Hx Ax. destruct (M3 x Hx Ax). repeat split; auto; lia. }
+  destruct ((d =? 0) || negb (d =? delay s)) eqn:E.
+  - destruct (0 <? d) eqn:Ed.
+    + apply Z.ltb_lt in Ed. cbn. repeat split; cbn; auto; try lia; try (intros; lia);
+        try (match goal with H0 : 0 < delay _ |- _ => cbn in H0; lia end);
+        try (match goal with H : In ?x _, A : active ?x = true |- _ => cbn in H; destruct (K x H A) as (? & ? & ?); lia end).
+    + apply Z.ltb_ge in Ed. assert (d = 0) by lia. cbn. repeat split; cbn; auto; try lia; try (intros; lia);
+        try (match goal with H0 : 0 < delay _ |- _ => cbn in H0; lia end);
+        try (match goal with H : In ?x _, A : active ?x = true |- _ => cbn in H; destruct (K x H A) as (? & ? & ?); lia end).
+  - apply orb_false_iff in E. destruct E as [E1 E2]. apply Z.eqb_neq in E1. apply negb_false_iff, Z.eqb_eq in E2.
+    repeat split; auto; try lia; try (apply Dp; lia);
+      try (match goal with H : In ?x _, A : active ?x = true |- _ => destruct (K x H A) as (? & ? & ?); try apply Dp; lia end).
+Qed.
+
+Definition notfin (o : out) : Prop := match o with GFinish _ _ _ _ _ _ _ => False | _ => True end.
+Lemma Tr_emit o s : notfin o -> Tr s -> Tr (emit o s).
+Proof.
+  intros NF []. constructor; cbn [outs emit set_outs slots now].
+  - intros * [E|H]; [subst o; contradiction|].
+    destruct (tr_fin0 _ _ _ _ _ _ _ H) as (A & B & C & D & G). repeat split; auto. right; auto.
+  - intros x Hx Ax. right; auto.
+  - destruct o; cbn [fins]; auto. contradiction.
+Qed.
+
+(* ---------- the timer callback body: loop + startstop ---------- *)
+Record Good (s : st) : Prop := { g_inv : Inv s; g_tr : Tr s; g_t1 : T1 s }.
+
+Definition eval_ghost (s0 s' : st) (due : Z) (o : out) : Prop :=
+  o = GEvalStart due (now s0) \/ (exists t, o = GEvalEnd t /\ now s0 <= t <= now s') \/ fin_from s0 s' 8 o.
+
+Lemma startstop_same s :
+  let s' := startstop s in
+  slots s' = slots s /\ cnt0 s' = cnt0 s /\ tb s' = tb s /\ now s' = now s /\ upc s' = upc s /\ upl s' = upl s /\
+  outs s' = outs s /\ chfl s' = chfl s /\ time2 s' = time2 s /\ li s' = li s /\ conn s' = conn s /\ reg s' = reg s /\
+  queue s' = queue s /\ gout s' = gout s /\ ram_relay s' = ram_relay s /\ ram_t2 s' = ram_t2 s.
+Proof.
+  cbv zeta. unfold startstop. destruct (_ || _); [destruct (0 <? _)|]; cbn; repeat split; reflexivity.
+Qed.
+Lemma frame_startstop s : frame s (startstop s).
+Proof.
+  destruct (startstop_same s) as (A & B & C & D & E & F & G & H & J & K & _).
+  constructor; auto; try lia. exists []. auto.
+Qed.
+
+Lemma cd_cb_spec c due s :
+  Inv s -> Tr s -> NW (cd_cb c due s) ->
+  let s' := cd_cb c due s in
+  Good s' /\ frame s s' /\ now s' <= now s + 8 * OP /\
+  (forall i, (i < 8)%nat -> evald (now s) (now s') s (slot_at s i) (slot_at s' i)) /\
+  (exists add, outs s' = add ++ outs s /\ Forall (fun o => isghost o = true -> eval_ghost s s' due o) add) /\
+  ((tcd s' = tcd s /\ delay s' = delay s) \/ t_due (tcd s') = now s' + t_per (tcd s') \/ t_on (tcd s') = false).
+Proof.
+  intros I T N. cbv zeta. unfold cd_cb in *.
+  set (s1 := emit (GEvalStart due (now s)) s) in *.
+  set (s2 := cd_loop c s1) in *.
+  set (s3 := emit (GEvalEnd (now s2)) s2) in *.
+  assert (I1 : Inv s1) by (apply Inv_emit; auto).
+  assert (T1' : Tr s1) by (apply Tr_emit; auto; exact Logic.I).
+  assert (F01 : frame s s1) by (unfold s1; constructor; cbn; try reflexivity; try lia; eexists [_]; reflexivity).
+  assert (F12 : frame s1 s2) by apply cd_loop_frame.
+  assert (F23 : frame s2 s3) by (unfold s3; constructor; cbn; try reflexivity; try lia; eexists [_]; reflexivity).
+  pose proof (frame_startstop s3) as F34.
+  assert (N3 : NW s3) by (eapply NW_frame; eauto).
+  assert (N2 : NW s2) by (eapply NW_frame; eauto).
+  pose proof (cd_loop_spec c s1 I1 T1' N2) as L. fold s2 in L. destruct L.
+  assert (I3 : Inv s3) by (apply Inv_emit; auto).
+  assert (T3 : Tr s3) by (apply Tr_emit; auto; exact Logic.I).
+  pose proof (startstop_spec s3 (i_tmr _ I3)) as SS. cbv zeta in SS.
+  set (s4 := startstop s3) in *.
+  destruct SS as (E1 & E2 & E3 & E4 & E5 & E6 & E7 & E8 & E9 & E10 & TM & TT & TD).
+  assert (I4 : Inv s4) by (eapply Inv_timer; eauto).
+  assert (Tr4 : Tr s4).
+  { destruct T3. constructor; rewrite ?E1, ?E7, ?E4; auto. }
+  assert (Now13 : now s1 = now s /\ now s3 = now s2) by (split; reflexivity). destruct Now13 as [Na Nb].
+  split; [constructor; auto|]. split; [|split; [|split; [|split]]].
+  - eapply frame_trans; [exact F01|]. eapply frame_trans; [exact F12|]. eapply frame_trans; eauto.
+  - rewrite E4, Nb. rewrite Na in lp_now0. change (Z.of_nat 8) with 8 in lp_now0. lia.
+  - intros i Hi. pose proof (lp_done0 i Hi) as EV. unfold slot_at in *. rewrite E1.
+    apply (evald_widen (now s1) (now s2)); [rewrite Na; lia | rewrite E4, Nb; lia | exact EV].
+  - destruct lp_outs0 as (add & O1 & O2).
+    exists (GEvalEnd (now s2) :: add ++ [GEvalStart due (now s)]). split.
+    + rewrite E7. unfold s3. cbn [outs emit set_outs]. rewrite O1. unfold s1. cbn [outs emit set_outs].
+      cbn [app]. rewrite <- app_assoc. reflexivity.
+    + constructor; [|apply Forall_app; split].
+      * intros _. right; left. exists (now s2). split; auto. rewrite E4, Nb. destruct F12. rewrite Na in fr_now0. lia.
+      * rewrite Forall_forall in *. intros o Ho Gh. right; right. 
+        destruct (O2 o Ho Gh) as (i & tl & P1 & P2 & P3 & P4 & P5).
+        exists i, tl. unfold slot_at in *. rewrite E1, E4, Nb. rewrite Na in P2. split; auto.
+      * constructor; auto. intros _. left. reflexivity.
+  - rewrite E4. change (tcd s3) with (tcd s2) in TD. change (delay s3) with (delay s2) in TD.
+    rewrite lp_tcd0, lp_delay0 in TD. exact TD.
+Qed.
+
+(* ---------- how the set of running slots evolves ---------- *)
+Definition same_id (x y : slot) : Prop :=
+  s_chan x = s_chan y /\ g_t0 x = g_t0 y /\ g_dur x = g_dur y /\ s_target x = s_target y /\ s_gpio x = s_gpio y.
+(* every running slot of s' either was running in s (same arming, no more time left than before) or was armed
+   after s on a channel in P *)
+Definition evo (P : Z -> Prop) (s s' : st) : Prop :=
+  forall y, In y (slots s') -> active y = true ->
+    (exists x, In x (slots s) /\ active x = true /\ same_id x y /\ s_left y <= s_left x /\ g_tl x <= g_tl y) \/
+    (now s <= g_t0 y /\ P (s_chan y)).
+Lemma same_id_refl x : same_id x x. Proof. repeat split. Qed.
+Lemma same_id_trans x y z : same_id x y -> same_id y z -> same_id x z.
+Proof. unfold same_id; intuition congruence. Qed.
+Lemma evo_refl P s : evo P s s.
+Proof. intros y Hy Ay. left. exists y. repeat split; auto; lia. Qed.
+Lemma evo_trans P s s' s'' : now s <= now s' -> evo P s s' -> evo P s' s'' -> evo P s s''.
+Proof.
+  intros Hn E1 E2 z Hz Az. destruct (E2 z Hz Az) as [(y & Hy & Ay & I2 & L2 & G2)|[N2 P2]].
+  - destruct (E1 y Hy Ay) as [(x & Hx & Ax & I1 & L1 & G1)|[N1 P1]].
+    + left. exists x. repeat split; auto; try lia; try (eapply same_id_trans; eauto).
+    + right. destruct I2 as (A & B & _). split; [lia|congruence].
+  - right. split; auto; lia.
+Qed.
+Lemma evo_weaken (P Q : Z -> Prop) s s' : (forall c, P c -> Q c) -> evo P s s' -> evo Q s s'.
+Proof. intros W E y Hy Ay. destruct (E y Hy Ay) as [A|[A B]]; auto. Qed.
+Lemma evo_same_slots P s s' : slots s' = slots s -> evo P s s'.
+Proof. intros E y Hy Ay. rewrite E in Hy. left. exists y. repeat split; auto; lia. Qed.
+Lemma evo_passive P s s' : passive s s' -> evo P s s'.
+Proof. intros []. apply evo_same_slots; auto. Qed.
+
+Lemma evald_evo P s s' :
+  Inv s -> (forall i, (i < 8)%nat -> evald (now s) (now s') s (slot_at s i) (slot_at s' i)) ->
+  length (slots s') = 8%nat -> evo P s s'.
+Proof.
+  intros I EV L y Hy Ay. destruct (in_slot_at s' y Hy) as (i & Hi & <-). rewrite L in Hi.
+  left. destruct (EV i Hi) as [[A B]|(A & tl & R & [[D1 D2]|[D1 D2]])].
+  - rewrite B in Ay. congruence.
+  - exists (slot_at s i). assert (Hin : In (slot_at s i) (slots s)) by (apply slot_at_in; rewrite (i_len _ I); auto).
+    pose proof (i_ok _ I _ Hin A) as SO. destruct SO as [Sch Sleft Sdur Sacct Slast Su0 (T1' & T2' & T3')].
+    assert (s_last (slot_at s i) <= rd s tl) by (rewrite Slast; apply rd_mono; lia).
+    rewrite D2. cbn. repeat split; auto; lia.
+  - rewrite D2 in Ay. cbn in Ay. discriminate.
+Qed.
+
+(* ---------- supla_esp_countdown_timer_disarm ---------- *)
+Lemma T1_fewer s s' :
+  delay s' = delay s -> tcd s' = tcd s ->
+  (forall y, In y (slots s') -> active y = true -> exists x, In x (slots s) /\ active x = true /\ s_left x = s_left y) ->
+  T1 s -> T1 s'.
+Proof.
+  intros E1 E2 H T y Hy Ay. destruct (H y Hy Ay) as (x & Hx & Ax & El). rewrite E1, E2, <- El. apply T; auto.
+Qed.
+
+Lemma disarm_spec c ch s :
+  0 <= ch < 255 -> Good s ->
+  let s' := disarm c ch s in
+  Good s' /\ frame s s' /\ delay s' = delay s /\ tcd s' = tcd s /\ now s' = now s /\
+  (forall x, In x (slots s') -> s_chan x <> ch) /\ evo (fun _ => False) s s' /\
+  (exists add, outs s' = add ++ outs s /\ Forall noghost add).
+Proof.
+  intros Hch [I T TT]. cbv zeta. unfold disarm.
+  destruct (find_slot (slots s) 0 ch) as [i|] eqn:EF.
+  2:{ split; [constructor; auto|]. split; [apply frame_refl|]. repeat split; auto.
+      - apply (find_slot_none _ _ _ EF).
+      - apply evo_refl.
+      - exists []; auto. }
+  apply find_slot_some in EF. destruct EF as (R & Ech & _). replace (i - 0) with i in * by lia.
+  unfold len in R. rewrite (i_len _ I) in R. set (n := Z.to_nat i) in *.
+  assert (Hn : (n < 8)%nat) by (unfold n; lia).
+  set (x := nth n (slots s) slot_free) in *. fold (slot_at s n) in x.
+  set (y := slot_release x (s_last x) (g_tl x)).
+  set (s1 := set_slots (upd (slots s) n y) s).
+  assert (I1 : Inv s1) by (apply Inv_set_slot; auto; left; cbn; auto).
+  assert (NoCh : forall z, In z (slots s1) -> s_chan z <> ch).
+  { intros z Hz. unfold s1 in Hz. cbn in Hz. apply (In_upd_idx _ _ _ _ slot_free) in Hz.
+    destruct Hz as [->|(j & Nj & Hj & <-)]; [cbn; lia|].
+    rewrite (i_len _ I) in Hj. intros E. apply Nj. apply (i_uniq _ I); auto.
+    - unfold slot_at. fold x. rewrite E. auto.
+    - unfold slot_at. rewrite E. lia. }
+  assert (Sub : forall z, In z (slots s1) -> active z = true -> In z (slots s)).
+  { intros z Hz Az. unfold s1 in Hz. cbn in Hz. apply In_upd in Hz. destruct Hz as [->|Hz]; auto. discriminate. }
+  assert (T1' : Tr s1).
+  { destruct T. constructor; cbn [outs s1 set_slots slots now]; auto.
+    intros * H. destruct (tr_fin0 _ _ _ _ _ _ _ H) as (A & B & C & D & G). repeat split; auto. }
+  assert (TT1 : T1 s1).
+  { eapply T1_fewer; [reflexivity|reflexivity| |exact TT]. intros z Hz Az. exists z. auto. }
+  assert (E1 : evo (fun _ => False) s s1).
+  { intros z Hz Az. left. exists z. repeat split; auto; lia. }
+  assert (F1 : frame s s1) by (constructor; cbn; try reflexivity; try lia; exists []; auto).
+  destruct (0 <? s_left x).
+  2:{ split; [constructor; auto|]. repeat split; auto. exists []; auto. }
+  set (s2 := t2_set ch 0 s1).
+  assert (P2 : passive s1 s2) by apply passive_t2_set.
+  assert (P3 : passive s2 (match chflags_of c ch s2 with
+                           | Some f => if hasf f CHFLAG_COUNTDOWN then ext_changed c ch s2 else s2
+                           | None => s2 end)).
+  { destruct (chflags_of c ch s2); [destruct (hasf _ _)|]; try apply passive_refl. apply passive_ext_changed. }
+  pose proof (passive_trans _ _ _ P2 P3) as P. set (s3 := match chflags_of c ch s2 with Some _ => _ | None => _ end) in *.
+  assert (N3 : now s3 = now s).
+  { unfold s3. destruct (chflags_of c ch s2); [destruct (hasf _ _)|]; rewrite ?now_ext_changed; unfold s2; rewrite now_t2_set; reflexivity. }
+  split; [constructor|].
+  - eapply Inv_passive; eauto.
+  - eapply Tr_passive; eauto.
+  - intros z Hz Az. rewrite (pa_slots _ _ P) in Hz. rewrite (pa_delay _ _ P), (pa_tcd _ _ P). apply TT1; auto.
+  - split; [eapply frame_trans; [exact F1|apply frame_passive; exact P]|].
+    split; [rewrite (pa_delay _ _ P); reflexivity|]. split; [rewrite (pa_tcd _ _ P); reflexivity|].
+    split; [auto|]. split; [rewrite (pa_slots _ _ P); auto|].
+    split.
+    + intros z Hz Az. rewrite (pa_slots _ _ P) in Hz. apply E1; auto.
+    + destruct (pa_outs _ _ P) as (add & EO & FO). exists add. auto.
 Qed.
